@@ -69,3 +69,214 @@ Print Assumptions C12_request_path_can_stick_refuted.
 Print Assumptions C12_block_path_reached.
 Print Assumptions C12_request_block_reached.
 Print Assumptions C12_request_recovery_reached.
+
+(* ================================================================================================
+   The same property at THREAD level (ConcReach.v): ConcTower's thread programs with the guard
+   lifetimes of the source, the Carrier's wait-and-retry recursion, the chain monitor's poll, the
+   flag's mutex and condition variable; for ALL schedules and ALL answers of the node.
+   ================================================================================================ *)
+From TeosModel Require Import Base TxIndex Tower ConcTower ConcReach ConcReachProofs ConcReachWitness ConcReachAbs.
+
+(* A public method that reads flag = false returns Unavailable and changes nothing: its whole program is
+   "take the flag's mutex, read the flag, drop the guard", and none of these steps touches the tower, the
+   flag, the node or the log of Carrier calls. *)
+Theorem C12_unavailable_takes_no_work sc fuel o :
+  exists body, api_p sc fuel o = RAcq L_reach (RReadFlag (api_checked body)) /\
+  forall c i held,
+  (nth_error (rc_threads c) i = Some (mk_rthread (RRun (RAcq L_reach (RReadFlag (api_checked body)))) held) ->
+   forall c', rstep c i = Some c' ->
+     quiet_step c c' /\ nth_error (rc_threads c') i = Some (mk_rthread (RRun (RReadFlag (api_checked body))) (L_reach :: held))) /\
+  (nth_error (rc_threads c) i = Some (mk_rthread (RRun (RReadFlag (api_checked body))) held) -> rc_flag c = false ->
+   forall c', rstep c i = Some c' ->
+     quiet_step c c' /\ nth_error (rc_threads c') i = Some (mk_rthread (RRun (RRel L_reach (RRet RUnavailable))) held)) /\
+  (nth_error (rc_threads c) i = Some (mk_rthread (RRun (RRel L_reach (RRet RUnavailable))) held) ->
+   forall c', rstep c i = Some c' ->
+     quiet_step c c' /\ exists th', nth_error (rc_threads c') i = Some th' /\ rresult th' = Some (RDone RUnavailable) /\
+                                    rt_held th' = remove_lock L_reach held).
+Proof.
+  destruct (api_p_shape sc fuel o) as [body E]. exists body. split; [exact E|].
+  intros c i held. exact (unavailable_takes_no_work c i body held).
+Qed.
+
+(* In every execution of the tower's threads (the chain monitor and any number of API workers, any
+   schedule, any answers of the node), for every thread: a request that hit a transport error is followed -
+   if the thread makes another Carrier call at all - by a request of the SAME kind for the SAME transaction
+   (`retry_ok`, the monitor that the check also evaluates on the implementation's RPC log; a call answered
+   from the memo puts nothing on the wire).  And the step in which a request gets a transport error changes
+   nothing of the tower - no memo entry, no tracker or appointment deletion - and continues with the retry
+   branch of the call, never with a verdict. *)
+Theorem C12_same_transaction_retried :
+  (forall le sc fuel pfuel specs t flag pending h rpc_or fetch_or sched i,
+     retry_ok (calls_of i (rc_log (rrun_config
+        (rinit t flag (map (thread_p le sc fuel pfuel) specs) pending h rpc_or fetch_or) sched))) = true) /\
+  (forall c j c' k tx,
+     rstep c j = Some c' -> rc_log c' = (j, EvRpc k tx CallErr) :: rc_log c ->
+     rc_tower c' = rc_tower c /\ rc_flag c' = rc_flag c /\
+     exists th B f (kont : ans B -> rprog rout), nth_error (rc_threads c) j = Some th /\ rt_st th = RRun (RRpc B f kont) /\
+       nth_error (rc_threads c') j = Some (mk_rthread (RRun (kont TransportErr)) (rt_held th))).
+Proof. split; [exact same_transaction_retried_tower|exact transport_error_produces_nothing]. Qed.
+
+(* ... for any thread programs whose Carrier calls have a fixed key (kd None) *)
+Theorem C12_same_transaction_retried_any_programs c sched i :
+  keyed_conf c -> rc_log c = [] -> retry_ok (calls_of i (rc_log (rrun_config c sched))) = true.
+Proof. exact (same_transaction_retried c sched i). Qed.
+
+(* Request path.  An API thread waits in hang_until_bitcoind_reachable (program pa0 = the wait, then the
+   interrupted call again, then the rest of the request; `calm` = it neither touches the flag nor notifies),
+   the chain monitor is idle and about to poll, the node has no new block and answers again.
+   For EVERY schedule: (1) there is no reachable configuration in which the monitor has finished its poll
+   and the request is still waiting un-notified, and (2) whenever the request has returned, its answer and
+   the tower's state are those of `rsolo pa0 t0`, the run in which the node had answered at once.
+   Fairness is what is left out: that the monitor thread, and then the woken thread, are eventually
+   scheduled is a hypothesis on the scheduler, stated here as "in no reachable configuration are both
+   finished/idle with the request still waiting". *)
+Theorem C12_request_path_recovers_threads le sc fuel pf r0 pa0 held_a t0 c sched :
+  calm pa0 ->
+  rc_rpc_or c = [] -> rc_tower c = t0 -> rc_pending c = [] -> hd F_ok (rc_fetch_or c) = F_ok ->
+  rc_threads c = [mk_rthread (RRun (poll_p le sc fuel (S pf) (RRet r0))) []; mk_rthread (RParked false pa0) held_a] ->
+  let c' := rrun_config c sched in
+  exists tm ta, rc_threads c' = [tm; ta] /\
+    (rfinished tm = true -> rc_flag c' = true /\ waiting_unnotified ta = false) /\
+    (forall r, rresult ta = Some r -> rc_tower c' = fst (rsolo pa0 t0) /\ r = snd (rsolo pa0 t0)).
+Proof.
+  intros Hc Ho Ht Hp Hf Eth. apply (request_path_recovers le sc fuel pf r0 pa0 held_a t0 Hc).
+  apply RI0; assumption.
+Qed.
+
+(* ... and for a thread of the tower that run is ConcTower's `exec` of the rest of its program from the
+   interrupted call on (hence the rest of Tower.step, by C10's exec_is_step): the SAME call f, then k *)
+Theorem C12_recovered_run_is_the_fault_free_run {B} fuel n (f : tower -> res B) (k : B -> prog out) t :
+  let K := fun b => embedk fuel (k b) (fun x => RRet (RO x)) in
+  let pa0 := RWait (RRel L_reach (RRpc B f (fun a => match a with Verdict b => K b | TransportErr => carrier_retry n f K end))) in
+  calm pa0 /\
+  rsolo pa0 t = match exec (Act B f k) t with Ok o t' => (t', RDone (RO o)) | Abort s t' => (t', RAbort s) end.
+Proof. exact (waiting_carrier_call fuel n f k t). Qed.
+
+(* REFUTED at thread level, block path (F5a): the configuration "the chain monitor waits for the
+   notification, un-notified, flag false" is reachable (kernel-evaluated schedule: the block with the dispute
+   arrives, the first request of the poll hits the outage; the monitor keeps the carrier and tx-index guards),
+   and once reached it holds in EVERY continuation, for any tower, any API workers, any answers of the node:
+   only the monitor's own poll notifies. *)
+Theorem C12_block_path_stuck_refuted_threads :
+  (exists c0 w, stuck_waiting (rrun_config c0 w) 0 = true /\ waits_of 0 (rc_log (rrun_config c0 w)) = [[L_txindex; L_carrier]]) /\
+  (forall le sc fuel pfuel t flag polls ops pending h ro fo w,
+     let c0 := rinit t flag (map (thread_p le sc fuel pfuel) (TMonitor polls :: map TApi ops)) pending h ro fo in
+     stuck_waiting (rrun_config c0 w) 0 = true ->
+     forall sched, stuck_waiting (rrun_config c0 (w ++ sched)) 0 = true).
+Proof.
+  split.
+  - exists wr_block_path, wr_block_sched. exact wr_block_path_reached.
+  - exact block_path_stuck.
+Qed.
+
+(* REFUTED at thread level, request path with a block (F5b): "the chain monitor asks for the locator-cache lock,
+   which an API thread keeps while it waits, un-notified, for the flag" is reachable and holds in every
+   continuation. *)
+Theorem C12_request_path_can_stick_refuted_threads :
+  (exists c0 w, stuck_on_lock (rrun_config c0 w) 0 1 L_cache = true /\
+                waits_of 1 (rc_log (rrun_config c0 w)) = [[L_txindex; L_carrier; L_cache]]) /\
+  (forall le sc fuel pfuel t flag polls ops pending h ro fo w a l,
+     let c0 := rinit t flag (map (thread_p le sc fuel pfuel) (TMonitor polls :: map TApi ops)) pending h ro fo in
+     a <> 0%nat -> stuck_on_lock (rrun_config c0 w) 0 a l = true ->
+     forall sched, stuck_on_lock (rrun_config c0 (w ++ sched)) 0 a l = true).
+Proof.
+  split.
+  - exists wr_request_block, wr_request_sched. exact wr_request_path_reached.
+  - exact request_path_stuck.
+Qed.
+
+(* Partial progress of a poll is kept (given Bootstrap.MONITOR_LOOP_POLLS_TO_COMPLETION, regenerated from
+   chain_monitor.rs: a poll is never cancelled half-way, so the SPV client's tip advances with every delivered
+   block): in every reachable configuration - any threads, schedule, download failures - the blocks handed to
+   the listeners so far followed by the blocks still above the SPV client's tip are the node's chain: what was
+   delivered before a failing download is never delivered again and nothing is skipped when a later poll
+   delivers the rest. *)
+Theorem C12_partial_poll_progress_kept c sched :
+  Bootstrap.MONITOR_LOOP_POLLS_TO_COMPLETION = true /\
+  delivered (rc_log (rrun_config c sched)) ++ map fst (rc_pending (rrun_config c sched)) =
+  delivered (rc_log c) ++ map fst (rc_pending c).
+Proof. split; [reflexivity|exact (partial_poll_progress_kept c sched)]. Qed.
+
+(* ... in particular the heights handed to the listeners are consecutive from the SPV client's tip (`consecutive`
+   is the monitor the check evaluates on the blocks the real chain monitor hands to the real listeners, also
+   when monitor_chain itself is driven with a download that stalls longer than the polling interval) *)
+Theorem C12_blocks_delivered_exactly_once c sched :
+  rc_log c = [] -> consecutive (rc_height c) (delivered_heights (rc_log (rrun_config c sched))) = true.
+Proof. exact (delivered_heights_consecutive c sched). Qed.
+
+(* The abstract machine of Reach.v is an abstraction of thread-level configurations (`abs2`: monitor = thread 0,
+   an API worker = thread 1): the hypotheses of the three abstract theorems at the top of this file are the
+   abstractions of the thread-level situations, and their conclusions hold of the abstraction of EVERY thread-level
+   continuation.  (A state abstraction along all runs; not a step-by-step simulation: an abstract poll is atomic.) *)
+Theorem C12_abstract_block_path_is_abstraction le sc fuel pfuel t flag polls ops pending h ro fo w :
+  let c0 := rinit t flag (map (thread_p le sc fuel pfuel) (TMonitor polls :: map TApi ops)) pending h ro fo in
+  stuck_waiting (rrun_config c0 w) 0 = true ->
+  (Reach.mon (abs2 (rrun_config c0 w)) = Reach.M_wait_reach /\ Reach.flag (abs2 (rrun_config c0 w)) = false) /\
+  forall sched, Reach.mon (abs2 (rrun_config c0 (w ++ sched))) = Reach.M_wait_reach /\
+                Reach.flag (abs2 (rrun_config c0 (w ++ sched))) = false.
+Proof. exact (abs_block_path le sc fuel pfuel t flag polls ops pending h ro fo w). Qed.
+
+Theorem C12_abstract_request_path_block_is_abstraction le sc fuel pfuel t flag polls ops pending h ro fo w l :
+  let c0 := rinit t flag (map (thread_p le sc fuel pfuel) (TMonitor polls :: map TApi ops)) pending h ro fo in
+  stuck_on_lock (rrun_config c0 w) 0 1 l = true ->
+  forall sched, let s := abs2 (rrun_config c0 (w ++ sched)) in
+    Reach.mon s = Reach.M_wait_cache /\ Reach.api s = Reach.A_wait_reach /\ Reach.flag s = false.
+Proof. exact (abs_request_path_block le sc fuel pfuel t flag polls ops pending h ro fo w l). Qed.
+
+Theorem C12_abstract_recovery_is_abstraction le sc fuel pf r0 pa0 held_a t0 c sched :
+  calm pa0 -> snd (rsolo pa0 t0) <> RDone RUnavailable ->
+  rc_rpc_or c = [] -> rc_tower c = t0 -> rc_pending c = [] -> hd F_ok (rc_fetch_or c) = F_ok ->
+  rc_threads c = [mk_rthread (RRun (poll_p le sc fuel (S pf) (RRet r0))) []; mk_rthread (RParked false pa0) held_a] ->
+  (Reach.mon (abs2 c) = Reach.M_idle /\ Reach.api (abs2 c) = Reach.A_wait_reach /\
+   Reach.block_pending (abs2 c) = false /\ Reach.node_up (abs2 c) = true) /\
+  let c' := rrun_config c sched in
+  forallb rfinished (rc_threads c') = true ->
+  let s' := Reach.rstep (abs2 c) (Reach.E_poll false) in
+  Reach.flag (abs2 c') = Reach.flag s' /\ Reach.api (abs2 c') = Reach.api s' /\ Reach.mon (abs2 c') = Reach.mon s'.
+Proof. exact (abs_request_path_recovers le sc fuel pf r0 pa0 held_a t0 c sched). Qed.
+
+(* non-vacuity: kernel-evaluated executions (ConcReachWitness.v) *)
+Example C12_request_path_recovers_instance :
+  let c := rrun_config (wr_request_quiet 1 [true]) wr_recover_sched in
+  let c_ff := rrun_config (wr_request_quiet 1 []) wr_recover_sched in
+  map rresult (rc_threads c) = map rresult (rc_threads c_ff) /\ forallb rfinished (rc_threads c) = true /\
+  rc_tower c = rc_tower c_ff /\ rc_flag c = true /\
+  calls_of 1 (rc_log c) =
+    [Some (K_getraw, 107%N, CallErr); Some (K_getraw, 107%N, CallVerdict (InMempoolSince 0));
+     Some (K_send, 107%N, CallVerdict (InMempoolSince 121))] /\
+  find_trk (db_trks (rc_tower c)) (7%N, 1%N) <> None.
+Proof. exact wr_request_path_recovers. Qed.
+
+Example C12_partial_poll_instance :
+  let c1 := rrun_config (wr_multi 1) (repeat 0%nat 400) in
+  let c2 := rrun_config (wr_multi 2) (repeat 0%nat 400) in
+  delivered (rc_log c1) = [2001; 2002]%N /\ rc_flag c1 = true /\ rc_lkb c1 = 124%N /\ rc_height c1 = 122%N /\
+  delivered (rc_log c2) = [2001; 2002; 2003; 2004]%N /\ rc_flag c2 = true /\ rc_lkb c2 = 124%N /\ rc_pending c2 = [] /\
+  find_trk (db_trks (rc_tower c2)) (7%N, 1%N) <> None.
+Proof. exact wr_partial_poll. Qed.
+
+Example C12_unavailable_instance :
+  let c := rrun_config wr_block_path wr_block_sched in
+  let c2 := rrun_config c (repeat 1%nat 10 ++ repeat 0%nat 10) in
+  map rresult (rc_threads c2) = [None; Some (RDone RUnavailable)] /\ rc_tower c2 = rc_tower c.
+Proof. exact wr_unavailable. Qed.
+
+Example C12_the_waiting_thread_of_the_tower_is_calm :
+  exists (pa0 : rprog rout), calm pa0 /\ pa0 <> RRet RUnavailable.
+Proof.
+  destruct (waiting_carrier_call 3 2 (ask_mempool [] 107) (fun _ => Ret OBlockRes) wr_cached) as [H _].
+  eexists. split; [exact H|discriminate].
+Qed.
+
+Print Assumptions C12_unavailable_takes_no_work.
+Print Assumptions C12_same_transaction_retried.
+Print Assumptions C12_same_transaction_retried_any_programs.
+Print Assumptions C12_request_path_recovers_threads.
+Print Assumptions C12_recovered_run_is_the_fault_free_run.
+Print Assumptions C12_block_path_stuck_refuted_threads.
+Print Assumptions C12_request_path_can_stick_refuted_threads.
+Print Assumptions C12_partial_poll_progress_kept.
+Print Assumptions C12_blocks_delivered_exactly_once.
+Print Assumptions C12_abstract_block_path_is_abstraction.
+Print Assumptions C12_abstract_request_path_block_is_abstraction.
+Print Assumptions C12_abstract_recovery_is_abstraction.
